@@ -328,7 +328,18 @@ class Replay:
         self.p.stdin.flush()
         out = self.p.stdout.readline()
         if not out:
-            raise Inconclusive("replay runner died on request: %s" % line[:200])
+            # the real code took the whole process down on this request (abort: allocation failure, stack overflow, double panic):
+            # that is an answer about the real code, reported like a panic; the runner is restarted for the requests that follow
+            try:
+                code = self.p.wait(timeout=5)
+            except Exception:
+                code = None
+            self.died = getattr(self, "died", 0) + 1
+            if self.died > 20:
+                raise Inconclusive("replay runner died repeatedly, last on request: %s" % line[:200])
+            self.p = subprocess.Popen([self.bin], stdin=subprocess.PIPE, stdout=subprocess.PIPE, stderr=subprocess.DEVNULL, text=True, bufsize=1)
+            self.count += 1
+            return {"panic": "the process was aborted (exit status %s) while serving this request" % code, "at": "abort", "died": True}
         self.count += 1
         return json.loads(out)
 
@@ -347,6 +358,18 @@ def load_known():
         return []
     with open(p) as f:
         return json.load(f)["findings"]
+
+
+def composed(ctx, name, fn):
+    """Run a leg borrowed from another property's check: when it cannot be encoded on this tree that is recorded as inconclusive and
+    the caller's own legs still run (a violation they find takes precedence)."""
+    import mir as _mir
+    import sym as _sym
+    try:
+        return fn()
+    except (_mir.Unsupported, _sym.Unsupported, Inconclusive) as ex:
+        ctx.ob("composed/%s/encodable" % name, None, "%s: %s" % (type(ex).__name__, str(ex)[:300]))
+        return None
 
 
 class Ctx:
